@@ -297,7 +297,7 @@ Theorem expectation_correct a M now auths sigs cs :
   wf a ->
   match expectation (a_rules a) M now auths sigs cs with
   | XFail => do_check_auth (oracles_of M) a now auths sigs cs = Fail
-  | XSilent => True
+  | XSilent => do_check_auth (oracles_of M) a now auths sigs cs = Fail
   | XOk enf => exists l, do_check_auth (oracles_of M) a now auths sigs cs = Ok l /\ filter is_enforce l = enf
   end.
 Proof.
@@ -320,7 +320,17 @@ Proof.
       apply in_map_iff in Ha. destruct Ha as [x [Hx _]]. discriminate. }
   assert (Hlen : length cs = length rs).
   { apply (f_equal (@length _)) in Ha. rewrite !map_length in Ha. exact Ha. }
-  destruct (existsb _ (combine cs rs)) eqn:Et; [exact I|].
+  destruct (existsb _ (combine cs rs)) eqn:Et.
+  { (* a deciding rule's hook traps: the check cannot succeed *)
+    destruct (do_check_auth (oracles_of M) a now auths sigs cs) as [l|] eqn:E; [|reflexivity].
+    exfalso. destruct (do_check_auth_ok _ _ _ _ _ _ _ E) as [_ [vs [Hf _]]].
+    destruct (Forall2_deciding a M now supplied cs vs W Hf) as [D [_ Hsat]]. fold supplied in Ha. rewrite D in Ha.
+    assert (Hrs : rs = map (fun v => fst (fst v)) vs).
+    { clear -Ha. revert Ha. generalize (map (fun v : rule * ctx * list signer => fst (fst v)) vs). intros l.
+      revert l. induction rs as [|r rs IH]; intros [|x l] H; cbn [map] in H; try discriminate; [reflexivity|].
+      inversion H. f_equal. auto. }
+    subst rs. apply existsb_exists in Et. destruct Et as [cr [Hcr Ht]].
+    rewrite rule_status_rstatus, (Hsat cr Hcr) in Ht. discriminate. }
   (* every deciding rule is satisfied *)
   assert (Hsat : forall cr, In cr (combine cs rs) -> rstatus (oracles_of M) (fst cr) supplied (snd cr) = RSat).
   { intros [c r] Hcr. cbn [fst snd].
@@ -430,64 +440,8 @@ Proof.
   intros W. pose proof (expectation_correct a M now auths sigs cs W) as H.
   destruct (expectation (a_rules a) M now auths sigs cs) as [| |enf]; cbn [agrees].
   - rewrite H. reflexivity.
-  - reflexivity.
+  - rewrite H. reflexivity.
   - destruct H as [l [-> Hl]]. rewrite <- Hl. apply same_enforce_filter_refl.
-Qed.
-
-Lemma auth_step_model c types m st cl :
-  sim m st -> swf st ->
-  auth_step m (cl, snd (step c st cl), observe types (fst (step c st cl))) = true /\
-  sim (mon_next m (cl, snd (step c st cl), observe types (fst (step c st cl)))) (fst (step c st cl)).
-Proof.
-  intros [Sm [Sd [Sr Sn]]] [W N]. unfold auth_step, mon_next, sim. rewrite Sm, Sd, Sr, Sn.
-  destruct cl; cbn [step].
-  - (* Construct *)
-    destruct (s_deployed st) eqn:D; cbn [negb fst snd].
-    + repeat split; auto.
-    + destruct (add_context_rule _ c (s_acct st) (s_now st) TDefault 0%N None signers policies) as [[[a1 r1] l1]|];
-        cbn [fst snd]; repeat split; auto.
-  - (* Advance *)
-    destruct ((0 <=? n) && in_u32 (s_now st + n)); cbn [fst snd]; destruct (s_deployed st); repeat split; auto.
-  - (* SetMode *)
-    cbn [fst snd]. destruct (s_deployed st); repeat split; auto.
-  - (* Admin *)
-    destruct (s_deployed st) eqn:D; cbn [negb fst snd]; [|repeat split; auto].
-    pose proof (expectation_correct (s_acct st) (s_modes st) (s_now st) auths sigs [CCall self (fn_of op)] W) as He.
-    destruct (do_check_auth (oracles_of (s_modes st)) (s_acct st) (s_now st) auths sigs [CCall self (fn_of op)]) as [l1|] eqn:E1;
-      cbn [bind]; [|cbn [fst snd agrees_sound]; repeat split; auto].
-    destruct (run_op (oracles_of (s_modes st)) c (s_acct st) (s_now st) op) as [[[a1 ret] l2]|] eqn:E2;
-      cbn [bind fst snd]; [|cbn [agrees_sound]; repeat split; auto].
-    split; [|cbn; repeat split; auto].
-    cbn [agrees_sound]. destruct (expectation (a_rules (s_acct st)) (s_modes st) (s_now st) auths sigs [CCall self (fn_of op)]) as [| |enf];
-      cbn [agrees]; [discriminate|reflexivity|].
-    destruct He as [l [He Hl]]. inversion He; subst l.
-    rewrite filter_app. rewrite (run_op_no_enf _ _ _ _ _ _ _ _ E2 : filter is_enforce l2 = []), app_nil_r, <- Hl.
-    apply same_enforce_filter_refl.
-  - (* CheckAuth *)
-    destruct (s_deployed st) eqn:D; cbn [negb fst snd]; [|repeat split; auto].
-    pose proof (agrees_expectation (s_acct st) (s_modes st) (s_now st) auths sigs cs W) as Ha.
-    destruct (do_check_auth (oracles_of (s_modes st)) (s_acct st) (s_now st) auths sigs cs); cbn [fst snd];
-      repeat split; auto.
-  - (* Invoke *)
-    destruct (s_deployed st) eqn:D; cbn [negb fst snd]; [|repeat split; auto].
-    pose proof (agrees_expectation (s_acct st) (s_modes st) (s_now st) auths sigs cs W) as Ha.
-    destruct (do_check_auth (oracles_of (s_modes st)) (s_acct st) (s_now st) auths sigs cs); cbn [fst snd];
-      repeat split; auto.
-  - (* SetThreshold *)
-    destruct (s_deployed st) eqn:D; cbn [negb fst snd]; [|repeat split; auto].
-    set (cx := if via_execute then CCall self fn_execute else CCall thr_callee fn_set_threshold).
-    set (M := if via_execute then s_modes st else mark_busy (s_modes st)).
-    assert (EO : (if via_execute then oracles_of (s_modes st) else oracles_of (mark_busy (s_modes st))) = oracles_of M)
-      by (unfold M; destruct via_execute; reflexivity).
-    rewrite EO.
-    pose proof (expectation_correct (s_acct st) M (s_now st) auths sigs [cx] W) as He.
-    destruct (do_check_auth (oracles_of M) (s_acct st) (s_now st) auths sigs [cx]) as [l1|] eqn:E1;
-      [|cbn [fst snd agrees_sound]; repeat split; auto].
-    destruct ((1 <=? t) && (t <=? nsig)); cbn [fst snd]; [|cbn [agrees_sound]; repeat split; auto].
-    split; [|cbn; repeat split; auto].
-    cbn [agrees_sound]. destruct (expectation (a_rules (s_acct st)) M (s_now st) auths sigs [cx]) as [| |enf];
-      cbn [agrees]; [discriminate|reflexivity|].
-    destruct He as [l [He Hl]]. inversion He; subst l. rewrite <- Hl. apply same_enforce_filter_refl.
 Qed.
 
 Lemma model_items_cons c types st cl r :
